@@ -1,3 +1,6 @@
+(* STATUS NOTE (third session): remarks of the form "NOT PROVED" in the comments below were written when the first theorems of this
+   file were stated; theorems added further down in this file supersede them.  The current status of the property is the row of
+   DESIGN.md section 14.4; the premises that remain are listed in DESIGN.md section 14.9. *)
 (* C14 — Analysis data is the fixpoint of make/merge over each class.
    PROVED (EGraph/AnalysisFix.v, abstract: any join-semilattice, any make monotone in the children's
    data, any finite family of classes with e-nodes): a state that is STABLE (make of every node is
